@@ -38,13 +38,13 @@ pub struct RunOut {
 
 impl RunOut {
     pub fn new() -> RunOut { RunOut { stats: Stats::default(), failures: Vec::new(), viol_counts: HashMap::new(), gate_broken_histories: 0 } }
-    pub fn record(&mut self, viols: &[Viol], cfg: &HistCfg, ops: &[String], at: usize) {
+    pub fn record(&mut self, viols: &[Viol], cfg: &HistCfg, ops: &[Op], at: usize) {
         for v in viols {
             *self.viol_counts.entry(v.prop).or_insert(0) += 1;
             let kept = self.failures.iter().filter(|f| f.prop == v.prop).count();
             let same_sig = self.failures.iter().filter(|f| f.prop == v.prop && f.sig == v.sig).count();
             if kept < 12 && same_sig < 3 {
-                self.failures.push(Failure { prop: v.prop, sig: v.sig.clone(), msg: v.msg.clone(), cfg: cfg.clone(), ops: ops.to_vec(), at });
+                self.failures.push(Failure { prop: v.prop, sig: v.sig.clone(), msg: v.msg.clone(), cfg: cfg.clone(), ops: ops.iter().map(|o| o.to_text()).collect(), at });
             }
         }
     }
@@ -59,6 +59,8 @@ pub fn base_entry_size() -> usize {
 pub enum Source<'a> {
     Generated(&'a mut Gen),
     Fixed(&'a [Op]),
+    /// next operation computed from the current observation of the addressed cache (None ends the history)
+    Dynamic(&'a mut dyn FnMut(&Obs, usize) -> Option<Op>),
 }
 
 pub struct HistOpts {
@@ -66,9 +68,13 @@ pub struct HistOpts {
     pub check_entry_size_fn: bool,
     /// sample the lookup sweep when the cache is larger than this
     pub big: usize,
+    /// cheap observation (interpreters): structure gate every step, traversals and lookups sampled
+    pub lean: bool,
+    /// no transition oracles at all: structure gate + ledger only (the interpreter / sanitizer is the monitor)
+    pub bare: bool,
 }
 
-impl Default for HistOpts { fn default() -> Self { HistOpts { obs_owned_form: true, check_entry_size_fn: true, big: 64 } } }
+impl Default for HistOpts { fn default() -> Self { HistOpts { obs_owned_form: true, check_entry_size_fn: true, big: 64, lean: cfg!(miri), bare: false } } }
 
 pub fn run_history(cfg: &HistCfg, src: Source, out: &mut RunOut, opts: &HistOpts) {
     if cfg.hk == 4 { run_history_s::<DefaultHashBuilder>(cfg, src, out, opts) } else { run_history_s::<TH>(cfg, src, out, opts) }
@@ -81,7 +87,7 @@ fn run_history_s<S: HB>(cfg: &HistCfg, mut src: Source, out: &mut RunOut, opts: 
     let mut caches: Vec<Cache<S>> = vec![S::make(cfg.max, cfg.cap0, cfg.hk)];
     let mut cur = 0usize;
     let mut held = Held::default();
-    let mut oplog: Vec<String> = Vec::new();
+    let mut oplog: Vec<Op> = Vec::new();
     let mut fresh_memo: HashMap<usize, usize> = HashMap::new();
     let fresh_cell = std::cell::RefCell::new(&mut fresh_memo);
     let hk = cfg.hk;
@@ -89,10 +95,11 @@ fn run_history_s<S: HB>(cfg: &HistCfg, mut src: Source, out: &mut RunOut, opts: 
         let mut m = fresh_cell.borrow_mut();
         *m.entry(n).or_insert_with(|| S::make(0, Some(n), hk).capacity())
     };
+    let lean = opts.lean;
     let obs_opts = |len: usize, step: usize| ObsOpts {
-        universe: if len <= opts.big || step % 16 == 0 { cfg.universe } else { 0 },
-        owned_form: opts.obs_owned_form && (len <= 24 || step % 8 == 0),
-        traversals: len <= 4 * opts.big || step % 8 == 0,
+        universe: if opts.bare { 0 } else if lean { if step % 8 == 0 { cfg.universe.min(12) } else { 0 } } else if len <= opts.big || step % 16 == 0 { cfg.universe } else { 0 },
+        owned_form: !lean && opts.obs_owned_form && (len <= 24 || step % 8 == 0),
+        traversals: if opts.bare { step % 16 == 0 } else if lean { step % 4 == 0 } else { len <= 4 * opts.big || step % 8 == 0 },
         limit: len + 8,
     };
     let mut pre_all: Vec<Obs> = vec![observe(&caches[0], &obs_opts(0, 0))];
@@ -103,17 +110,21 @@ fn run_history_s<S: HB>(cfg: &HistCfg, mut src: Source, out: &mut RunOut, opts: 
     let mut pristine = true; // only fresh insertions so far on cache 0
     let mut peak_len = 0usize;
     let mut explicit_cap = cap_initial;
+    // the watermark of explicit requests is kept in buckets: capacity() itself dips with tombstones and recovers without any request
+    let mut explicit_buckets = pre_all[0].buckets;
     let mut step = 0usize;
-    let n_events = match &src { Source::Generated(_) => cfg.events, Source::Fixed(ops) => ops.len() };
+    let n_events = match &src { Source::Generated(_) => cfg.events, Source::Fixed(ops) => ops.len(), Source::Dynamic(_) => usize::MAX };
+    let mut leaky = false; // an iterator was forgotten: leaks are permitted from here on (C17)
     let mut broken = false;
     while step < n_events && !caches.is_empty() {
         let op = match &mut src {
             Source::Generated(g) => g.next_op(&pre_all[cur], cfg, caches.len(), cur),
             Source::Fixed(ops) => ops[step].clone(),
+            Source::Dynamic(f) => match f(&pre_all[cur], step) { Some(op) => op, None => break },
         };
         // skip structurally impossible ops in fixed sequences
         match &op { Op::Switch { idx } | Op::DropCache { idx } if *idx >= caches.len() => { step += 1; continue; } Op::Into { .. } if caches.len() < 2 && step + 1 < n_events => { step += 1; continue; } _ => {} }
-        oplog.push(op.to_text());
+        oplog.push(op.clone());
         let addressed = cur;
         let removed = match &op { Op::Into { .. } => Some(cur), Op::DropCache { idx } if caches.len() > 1 => Some(*idx), _ => None };
         let t0 = counts();
@@ -137,10 +148,10 @@ fn run_history_s<S: HB>(cfg: &HistCfg, mut src: Source, out: &mut RunOut, opts: 
         {
             let ev = Event { pre: &pre_addressed, op: &op, out: &o, post: addressed_after.and_then(|i| post_all.get(i)), ticks, base, hk: cfg.hk,
                 clone: if is_clone { post_all.last() } else { None }, fresh_cap: &fresh_cap };
-            if matches!(op, Op::Into { .. }) || addressed_after.is_some() { check_event(&ev, &mut out.stats, &mut viols); }
+            if opts.bare { out.stats.events += 1; out.stats.eval_only("C07"); out.stats.eval_only("C06"); for m in post_all.iter().flat_map(|p| p.g1.iter()) { viols.push(Viol { prop: "C07", sig: "g1".into(), msg: format!("after {}: {}", op.to_text(), m) }); } } else if matches!(op, Op::Into { .. }) || addressed_after.is_some() { check_event(&ev, &mut out.stats, &mut viols); }
         }
         // --- C14 independence: every other cache is exactly as it was
-        if o.panic.is_none() {
+        if o.panic.is_none() && !opts.bare {
             for (j, p) in pre_map.iter().enumerate() {
                 if Some(j) == addressed_after { continue; }
                 if let (Some(p), Some(q)) = (p, post_all.get(j)) {
@@ -154,24 +165,42 @@ fn run_history_s<S: HB>(cfg: &HistCfg, mut src: Source, out: &mut RunOut, opts: 
             if pre_all.len() > 1 { out.stats.count("c14_ops_with_sibling_caches"); }
         }
         // --- C06 ledger: double drops at once, conservation at every quiescent point
+        let forget_event = matches!(&op, Op::Iterate { forget: true, .. } | Op::Into { forget: true, .. });
+        if forget_event { leaky = true; }
         let in_caches: usize = post_all.iter().map(|p| p.ents.len() * 2).sum();
         let heldn = held.keys.len() + held.vals.len();
-        out.stats.eval("C06", crate::rng::mix(&[op.kind_index(), o.drops.len().min(6) as u64, heldn.min(3) as u64, post_all.len() as u64, o.tag.len() as u64]));
-        for e in ledger_take_errors() { viols.push(Viol { prop: "C06", sig: "double-drop".into(), msg: format!("during/after {}: {}", op.to_text(), e) }); }
-        if o.panic.is_none() && post_all.iter().all(|p| p.g1.is_empty()) {
-            let live = ledger_live() as usize;
-            if live != in_caches + heldn {
-                let mut known: std::collections::BTreeSet<u64> = post_all.iter().flat_map(|p| p.ents.iter().flat_map(|e| [e.kuid, e.vuid])).collect();
-                for k in &held.keys { known.insert(k.uid); } for v in &held.vals { known.insert(v.uid); }
-                let stray: Vec<u64> = ledger_live_uids(100000).into_iter().filter(|u| !known.contains(u)).take(6).collect();
-                let dead: Vec<u64> = known.iter().filter(|u| !ledger_is_live(**u)).cloned().take(6).collect();
-                viols.push(Viol { prop: "C06", sig: if !stray.is_empty() { "leak".into() } else { "dropped-but-held".into() }, msg: format!("after {}: {} objects alive, {} in the caches + {} handed back; alive but owned by nobody: {:?}; owned but already dropped: {:?}", op.to_text(), live, in_caches, heldn, stray, dead) });
-            } else {
-                for p in &post_all { for e in &p.ents { if !ledger_is_live(e.kuid) || !ledger_is_live(e.vuid) { viols.push(Viol { prop: "C06", sig: "dropped-but-held".into(), msg: format!("after {}: entry {} holds an object that was already dropped", op.to_text(), e.id) }); } } }
+        if !leaky {
+            out.stats.eval("C06", crate::rng::mix(&[op.kind_index(), o.drops.len().min(6) as u64, heldn.min(3) as u64, post_all.len() as u64, o.tag.len() as u64]));
+            for e in ledger_take_errors() { viols.push(Viol { prop: "C06", sig: "double-drop".into(), msg: format!("during/after {}: {}", op.to_text(), e) }); }
+            if o.panic.is_none() && post_all.iter().all(|p| p.g1.is_empty()) {
+                let live = ledger_live() as usize;
+                if live != in_caches + heldn {
+                    let mut known: std::collections::BTreeSet<u64> = post_all.iter().flat_map(|p| p.ents.iter().flat_map(|e| [e.kuid, e.vuid])).collect();
+                    for k in &held.keys { known.insert(k.uid); } for v in &held.vals { known.insert(v.uid); }
+                    let stray: Vec<u64> = ledger_live_uids(100000).into_iter().filter(|u| !known.contains(u)).take(6).collect();
+                    let dead: Vec<u64> = known.iter().filter(|u| !ledger_is_live(**u)).cloned().take(6).collect();
+                    viols.push(Viol { prop: "C06", sig: if !stray.is_empty() { "leak".into() } else { "dropped-but-held".into() }, msg: format!("after {}: {} objects alive, {} in the caches + {} handed back; alive but owned by nobody: {:?}; owned but already dropped: {:?}", op.to_text(), live, in_caches, heldn, stray, dead) });
+                } else {
+                    for p in &post_all { for e in &p.ents { if !ledger_is_live(e.kuid) || !ledger_is_live(e.vuid) { viols.push(Viol { prop: "C06", sig: "dropped-but-held".into(), msg: format!("after {}: entry {} holds an object that was already dropped", op.to_text(), e.id) }); } } }
+                }
             }
+            held.clear();
+            for e in ledger_take_errors() { viols.push(Viol { prop: "C06", sig: "double-drop".into(), msg: format!("dropping what {} handed back: {}", op.to_text(), e) }); }
+        } else {
+            // C17: after a forgotten iterator only leaks are allowed
+            out.stats.eval("C17", crate::rng::mix(&[op.kind_index(), forget_event as u64, pre_addressed.len.min(9) as u64, o.yields.len().min(12) as u64, o.yields.iter().take(12).enumerate().map(|(i, y)| (y.none as u64) << i).sum::<u64>(), match &op { Op::Iterate { calls, .. } | Op::Into { calls, .. } => calls.iter().take(12).enumerate().map(|(i, c)| (*c as u64) << i).sum::<u64>(), _ => 0 }]));
+            if forget_event { out.stats.countf(format_args!("c17_forgot_{}", op.kind())); }
+            for e in ledger_take_errors() { viols.push(Viol { prop: "C17", sig: "double-drop".into(), msg: format!("during/after {}: {}", op.to_text(), e) }); }
+            let handed: std::collections::BTreeSet<u64> = held.keys.iter().map(|k| k.uid).chain(held.vals.iter().map(|v| v.uid)).collect();
+            for p in &post_all { for e in &p.ents {
+                if handed.contains(&e.kuid) || handed.contains(&e.vuid) { viols.push(Viol { prop: "C17", sig: "moved-out-reachable".into(), msg: format!("after {}: the cache still lists entry {} whose key/value was handed out by the iterator", op.to_text(), e.id) }); break; }
+                if !ledger_is_live(e.kuid) || !ledger_is_live(e.vuid) { viols.push(Viol { prop: "C17", sig: "moved-out-reachable".into(), msg: format!("after {}: the cache lists entry {} whose key/value has already been dropped", op.to_text(), e.id) }); break; }
+            } }
+            for p in &post_all { for m in p.g1.iter().chain(p.g2.iter()).chain(p.g3.iter()) { viols.push(Viol { prop: "C17", sig: "not-usable".into(), msg: format!("after {} (an iterator was forgotten earlier): {}", op.to_text(), m) }); } }
+            if !forget_event && o.panic.is_none() { out.stats.count("c17_further_use_ops"); }
+            held.clear();
+            for e in ledger_take_errors() { viols.push(Viol { prop: "C17", sig: "double-drop".into(), msg: format!("dropping what {} handed back: {}", op.to_text(), e) }); }
         }
-        held.clear();
-        for e in ledger_take_errors() { viols.push(Viol { prop: "C06", sig: "double-drop".into(), msg: format!("dropping what {} handed back: {}", op.to_text(), e) }); }
         // --- C13 history-level facets on cache 0: with_capacity promise and the growth bound
         if o.panic.is_none() && !post_all.is_empty() && addressed_after == Some(0) {
             let p0 = &post_all[0];
@@ -184,12 +213,12 @@ fn run_history_s<S: HB>(cfg: &HistCfg, mut src: Source, out: &mut RunOut, opts: 
                 if p0.cap != cap_initial { viols.push(Viol { prop: "C13", sig: "with-capacity-changed".into(), msg: format!("cache created with_capacity({}) changed capacity from {} to {} at its {}-th fresh insertion", cfg.cap0.unwrap(), cap_initial, p0.cap, p0.len) }); }
             }
             peak_len = peak_len.max(p0.len).max(pre_addressed.len);
-            if matches!(op, Op::Reserve { .. } | Op::TryReserve { .. } | Op::TryReserveFail { .. }) { explicit_cap = explicit_cap.max(p0.cap); }
+            if matches!(op, Op::Reserve { .. } | Op::TryReserve { .. } | Op::TryReserveFail { .. }) { explicit_cap = explicit_cap.max(p0.cap); explicit_buckets = explicit_buckets.max(p0.buckets); }
             let bound = (4 * peak_len).max(16);
-            if !(p0.cap < bound || p0.cap <= explicit_cap) { viols.push(Viol { prop: "C13", sig: "growth-bound".into(), msg: format!("after {}: capacity {} with peak len {} (bound {}) and largest explicitly requested capacity {}", op.to_text(), p0.cap, peak_len, bound, explicit_cap) }); }
+            if !(p0.cap < bound || p0.cap <= explicit_cap || p0.buckets <= explicit_buckets) { viols.push(Viol { prop: "C13", sig: "growth-bound".into(), msg: format!("after {}: capacity {} with peak len {} (bound {}) and largest explicitly requested capacity {}", op.to_text(), p0.cap, peak_len, bound, explicit_cap) }); }
         } else if addressed_after != Some(0) || post_all.is_empty() {
             // cache 0 may have been replaced by a clone: restart the bound bookkeeping from what is there now
-            if let Some(p0) = post_all.first() { if removed == Some(0) { pristine = false; peak_len = p0.len; explicit_cap = p0.cap; } }
+            if let Some(p0) = post_all.first() { if removed == Some(0) { pristine = false; peak_len = p0.len; explicit_cap = p0.cap; explicit_buckets = p0.buckets; } }
         }
         // --- entry_size() itself is linear in the declared sizes (cross-check of the formula the oracles use)
         if opts.check_entry_size_fn && step % 64 == 0 {
@@ -204,7 +233,7 @@ fn run_history_s<S: HB>(cfg: &HistCfg, mut src: Source, out: &mut RunOut, opts: 
         if !viols.is_empty() { out.record(&viols, cfg, &oplog, step); }
         if gate_broken { out.gate_broken_histories += 1; }
         if !viols.is_empty() || o.panic.is_some() { broken = gate_broken || o.panic.is_some(); pre_all = post_all; break; }
-        if out.stats.samples.get("hist").map(|v| v.len()).unwrap_or(0) < 3 && step == 12 { out.stats.sample("hist", format!("{} | {}", cfg.to_text(), oplog.join("; "))); }
+        if out.stats.samples.get("hist").map(|v| v.len()).unwrap_or(0) < 3 && step == 12 { out.stats.sample("hist", format!("{} | {}", cfg.to_text(), oplog.iter().map(|o| o.to_text()).collect::<Vec<_>>().join("; "))); }
         pre_all = post_all;
         step += 1;
     }
@@ -218,6 +247,14 @@ fn run_history_s<S: HB>(cfg: &HistCfg, mut src: Source, out: &mut RunOut, opts: 
     }
     let mut viols: Vec<Viol> = Vec::new();
     let mut k = 0u64;
+    if leaky {
+        // use is over: drop every cache; a double drop would show here
+        while let Some(c) = caches.pop() { drop(c); oplog.push(Op::DropCache { idx: 0 }); out.stats.count("c17_caches_dropped_after_forget"); }
+        for e in ledger_take_errors() { viols.push(Viol { prop: "C17", sig: "double-drop".into(), msg: format!("dropping the cache after an iterator had been forgotten: {}", e) }); }
+        if !viols.is_empty() { out.record(&viols, cfg, &oplog, oplog.len().saturating_sub(1)); }
+        ledger_reset();
+        return;
+    }
     while let Some(c) = caches.pop() {
         let pre = pre_all.pop().unwrap();
         k += 1;
@@ -230,11 +267,11 @@ fn run_history_s<S: HB>(cfg: &HistCfg, mut src: Source, out: &mut RunOut, opts: 
             m => { let n = pre.ents.len(); let calls: Vec<bool> = (0..(n * (k as usize % 3)) / 2 + (k as usize % 2)).map(|i| (i + oplog.len()) % 3 == 0).collect(); Some(Op::Into { kind: 2 + m as u8, calls, forget: false }) }
         };
         match op {
-            None => { window_begin(); drop(one.pop()); let drops = window_end(); oplog.push("drop_cache 0".into());
+            None => { window_begin(); drop(one.pop()); let drops = window_end(); oplog.push(Op::DropCache { idx: 0 });
                 let mut want: Vec<u64> = pre.ents.iter().flat_map(|e| [e.kuid, e.vuid]).collect(); want.sort_unstable(); let mut got = drops; got.sort_unstable();
                 if got != want { viols.push(Viol { prop: "C06", sig: "drop-cache".into(), msg: format!("dropping a cache with {} entries dropped {} objects", pre.ents.len(), got.len()) }); }
                 out.stats.eval("C06", crate::rng::mix(&[200, pre.len.min(9) as u64])); }
-            Some(op) => { oplog.push(op.to_text()); let o = apply(&mut one, &mut cur0, &op, &mut held, base); let ticks = delta(&t0, &counts());
+            Some(op) => { oplog.push(op.clone()); let o = apply(&mut one, &mut cur0, &op, &mut held, base); let ticks = delta(&t0, &counts());
                 let ev = Event { pre: &pre, op: &op, out: &o, post: None, ticks, base, hk: cfg.hk, clone: None, fresh_cap: &fresh_cap };
                 check_event(&ev, &mut out.stats, &mut viols);
                 out.stats.eval("C06", crate::rng::mix(&[201, pre.len.min(9) as u64, o.yields.len().min(9) as u64, op.kind_index()]));
@@ -249,11 +286,11 @@ fn run_history_s<S: HB>(cfg: &HistCfg, mut src: Source, out: &mut RunOut, opts: 
 }
 
 /// Many generated histories under one profile.
-pub fn run_profile(profile_name: &str, seed: u64, budget_events: u64, out: &mut RunOut) {
+pub fn run_profile(profile_name: &str, seed: u64, budget_events: u64, out: &mut RunOut, bare: bool) {
     let base = base_entry_size();
     let prof = profile(profile_name);
     let mut rng = Rng::new(seed);
-    let opts = HistOpts::default();
+    let opts = HistOpts { bare, ..HistOpts::default() };
     while out.stats.events < budget_events {
         let cfg = make_cfg(&mut rng, &prof, base);
         let target_len = rng.range(prof.fill.0, prof.fill.1).min(cfg.universe as usize);
